@@ -213,7 +213,20 @@ func discoverNames(l *Loaded) *renameSet {
 				rs.add(fn.Obj(), "nodeRef")
 				rs.add(pf, "pointer")
 				rs.add(tf, "tag")
-				rs.add(st.Field(i), "root")
+				// the root: the only field of the reference type (a second one – a cache, a
+				// cursor – is none of the vocabulary)
+				nRef, hasRoot := 0, false
+				for k := 0; k < st.NumFields(); k++ {
+					if sameNamed(st.Field(k).Type(), fn) {
+						nRef++
+						if st.Field(k).Name() == "root" {
+							hasRoot = true
+						}
+					}
+				}
+				if nRef == 1 && !hasRoot {
+					rs.add(st.Field(i), "root")
+				}
 			}
 		}
 	}
